@@ -39,7 +39,16 @@ func muxProbe(filters []string, topic string) (accepted []bool, called []int) {
 	mux := &mqtt.ServeMux{}
 	for i, f := range filters {
 		i := i
-		err := mux.Handle(f, mqtt.HandlerFunc(func(m *mqtt.Message) { called = append(called, i) }))
+		err := mux.Handle(f, mqtt.HandlerFunc(func(m *mqtt.Message) {
+			called = append(called, i)
+			// a handler owns the message it is given (e.g. a prefix-stripping router): rewriting it must
+			// not change which of the later registered handlers are invoked
+			if i%2 == 0 {
+				m.Topic = "rewritten/by/handler"
+			} else {
+				m.Topic = ""
+			}
+		}))
 		accepted = append(accepted, err == nil)
 	}
 	mux.Serve(&mqtt.Message{Topic: topic})
